@@ -211,4 +211,14 @@ class SymbolDB(MutableMapping[str, IReflection]):
 			self._order_keys_recursive(for_module_path, attr, orders)
 
 		if not for_module_path or for_module_path == symbol.types.module_path and symbol.types.fullyname not in orders:
-			orders.append(symbol.types.fullyname)
+			# XXX 前方参照されたクラスは、クラス自身の参照先(テンプレート型など)を先に出力
+			origin = self.__items.get(symbol.types.fullyname)
+			if for_module_path and origin is not None and origin is not symbol:
+				orders.append(symbol.types.fullyname)
+				index = len(orders) - 1
+				for attr in origin.attrs:
+					self._order_keys_recursive(for_module_path, attr, orders)
+
+				orders.append(orders.pop(index))
+			else:
+				orders.append(symbol.types.fullyname)
